@@ -808,7 +808,14 @@ func main() {
 	absMax := flag.Int("abstract-max", 40, "emit the abstract image of flate streams with at most this many symbols")
 	one := flag.String("one", "", "replay one <stream, limit> and print the row")
 	cpuprof := flag.String("cpuprofile", "", "write a CPU profile (development aid)")
+	degen := flag.String("degenerate", "", "write DEFLATE streams with degenerate Huffman trees into this directory and exit")
 	flag.Parse()
+	if *degen != "" {
+		if err := writeDegenerate(*degen); err != nil {
+			fail("%v", err)
+		}
+		return
+	}
 	debug.SetGCPercent(400)
 	if *cpuprof != "" {
 		f, err := os.Create(*cpuprof)
